@@ -48,6 +48,10 @@ func main() {
 		debugLockInfer(*repo)
 		return
 	}
+	if *dbg == "globals" {
+		debugGlobals(*repo)
+		return
+	}
 	if *dbg == "panics" {
 		debugPanics(*repo)
 		return
